@@ -11,9 +11,13 @@ package main
 
 import (
 	"fmt"
+	"go/token"
 	"go/types"
 	"regexp"
+	"sort"
 	"strings"
+
+	"golang.org/x/tools/go/ssa"
 )
 
 var reGraph = regexp.MustCompile(`#graph:|#(ensures|join\d+\.\d+|loop\d+-(entry|preserve(\.\d+)?)):(foreach_)?(objects|objects_grow|scopes_grow|back_objects_grow|back_scopes_grow|robjects_grow|rscopes_grow|rback_objects_grow|rback_scopes_grow|node_decl_grows|node_data_grows|deferred_keys_fresh|registered|scope_kept|imports_so_far|imports_visited|imports_members|imports_names|imports_extras_off)$|#call:.*:objects@\d+$`)
@@ -53,12 +57,14 @@ func init() {
 			}
 			us5, es5 := buildRestoreFile(p, tier)
 			us4, es4 = append(us4, us5...), append(es4, es5...)
+			us6, es6 := buildForkCompare(p)
+			us4, es4 = append(us4, us6...), append(es4, es6...)
 			us = append(append(append(us, us2...), us3...), us4...)
 			es = append(append(append(es, es2...), es3...), es4...)
 			return us, es
 		},
 		Select: func(n string) bool {
-			for _, c := range []string{"decorateObject#", "decorateScope#", "restoreObject#", "restoreScope#", "NewPackage#"} {
+			for _, c := range []string{"decorateObject#", "decorateScope#", "restoreObject#", "restoreScope#", "NewPackage#"} { // NewPackage# includes the fork comparison
 				if strings.Contains(n, c) {
 					return true
 				}
@@ -110,4 +116,100 @@ func writeOnceOpts() *UnitOpts {
 		}
 	}
 	return opts
+}
+
+// ---- resolve.go is a fork of go/ast's NewPackage: "positions aside" the two must make the same calls ----
+
+// forkTape: the calls a function makes to its own package (and through its function-typed
+// parameters), in source order, with receiver and argument texts; position-typed operands and the
+// calls that only compute positions are dropped.
+func forkTape(fn *ssa.Function) []string {
+	type item struct {
+		pos  token.Pos
+		text string
+	}
+	var items []item
+	isPos := func(t types.Type) bool {
+		n, ok := t.(*types.Named)
+		return ok && n.Obj().Name() == "Pos" && n.Obj().Pkg() != nil && n.Obj().Pkg().Path() == "go/token"
+	}
+	for _, b := range fn.Blocks {
+		for _, in := range b.Instrs {
+			c, ok := in.(*ssa.Call)
+			if !ok {
+				continue
+			}
+			name := ""
+			if callee := c.Call.StaticCallee(); callee != nil {
+				if callee.Pkg != fn.Pkg && (callee.Pkg == nil || callee.Pkg.Pkg.Path() != "fmt") {
+					continue // other packages: position lookups, strconv, sorting of the error list
+				}
+				name = callee.Name()
+				if name == "Pos" || name == "End" {
+					continue
+				}
+			} else if c.Call.IsInvoke() {
+				continue
+			} else {
+				name = "call " + argText(c.Call.Value)
+			}
+			var args []string
+			for _, a := range c.Call.Args {
+				if isPos(a.Type()) {
+					continue
+				}
+				t := argText(a)
+				if strings.HasPrefix(t, "?") {
+					t = "_"
+				}
+				if strings.HasPrefix(t, "\"") && strings.Contains(t, "redeclared in this block") {
+					t = "\"… redeclared in this block\"" // go/ast appends the previous position to the message
+				}
+				args = append(args, t)
+			}
+			if name == "Sprintf" && len(args) > 0 && strings.Contains(args[0], "previous declaration") {
+				continue
+			}
+			items = append(items, item{c.Pos(), name + "(" + strings.Join(args, ", ") + ")"})
+		}
+	}
+	sort.Slice(items, func(i, j int) bool { return items[i].pos < items[j].pos })
+	var out []string
+	for _, it := range items {
+		out = append(out, it.text)
+	}
+	return out
+}
+
+func buildForkCompare(p *Program) ([]*Unit, []UnitError) {
+	pairs := [][2]string{
+		{pkgDst + ".NewPackage", "go/ast.NewPackage"},
+		{pkgDst + ".(*pkgBuilder).declare", "go/ast.(*pkgBuilder).declare"},
+		{pkgDst + ".resolve", "go/ast.resolve"},
+		{pkgDst + ".(*Scope).Insert", "go/ast.(*Scope).Insert"},
+		{pkgDst + ".(*Scope).Lookup", "go/ast.(*Scope).Lookup"},
+		{pkgDst + ".NewScope", "go/ast.NewScope"},
+	}
+	ex := p.newExec("NewPackage/fork")
+	for _, pr := range pairs {
+		d, a := p.fns[pr[0]], p.fns[pr[1]]
+		name := "NewPackage#fork:same_calls_as_go_ast:" + shortKey(pr[0])
+		goal, what := "true", ""
+		switch {
+		case d == nil || a == nil:
+			goal, what = "false", "function not found: "+pr[0]+" / "+pr[1]
+		default:
+			dt, at := forkTape(d), forkTape(a)
+			if strings.Join(dt, " ; ") != strings.Join(at, " ; ") {
+				goal = "false"
+			}
+			what = "dst: " + strings.Join(dt, " ; ") + "  ||  go/ast: " + strings.Join(at, " ; ")
+		}
+		o := ex.oblige(name, "frame", "true", goal, what, "")
+		o.Guard = "true"
+		if d != nil {
+			ex.unit.addFunc(d.String())
+		}
+	}
+	return []*Unit{ex.unit}, nil
 }
